@@ -32,7 +32,7 @@ ANCH = {
  "C18": [("modeling/decay.py", ["ModelDecay.list_structure", "ModelDecay.structure", "ModelDecay.vertexes"]),
          ("modeling/goofit.py", ["GooFitChain.make_spinfactor", "GooFitChain.make_linefactor", "GooFitChain.make_amplitude", "GooFitChain.to_goofit", "GooFitPyChain.make_spinfactor", "GooFitPyChain.make_linefactor", "GooFitPyChain.make_amplitude", "GooFitPyChain.to_goofit",
                                  "GooFitChain.spindetails", "GooFitChain.spinfactors", "GooFitChain.formfactor", "GooFitChain.decay_structure"]), ("modeling/amplitudechain.py", ["AmplitudeChain.ls_enum", "AmplitudeChain.L"])],
- "C19": [("modeling/goofit.py", ["GooFitChain.make_intro", "GooFitChain.make_pars", "GooFitPyChain.make_intro", "GooFitPyChain.make_pars", "GooFitChain.make_lineshape", "GooFitPyChain.make_lineshape"]),
+ "C19": [("modeling/goofit.py", ["GooFitChain.make_intro", "GooFitChain.make_pars", "GooFitPyChain.make_intro", "GooFitPyChain.make_pars", "GooFitChain.make_lineshape", "GooFitPyChain.make_lineshape", "GooFitChain.make_amplitude", "GooFitPyChain.make_amplitude"]),
          ("modeling/ampgen2goofit.py", ["ampgen2goofit", "ampgen2goofitpy"])],
  "C20": [("modeling/amplitudechain.py", ["AmplitudeChain.read_ampgen", "AmplitudeChain.from_matched_line"]), ("modeling/goofit.py", ["GooFitChain.read_ampgen", "GooFitPyChain.read_ampgen"])],
  "C04": [("utils/particleutils.py", ["charge_conjugate_name"]), ("decay/decay.py", ["DaughtersDict.charge_conjugate", "DecayMode.charge_conjugate"])],
